@@ -152,11 +152,11 @@ func run[S, B signal.SignalTypes](c *Case) (res kit.Result) {
 		what := fmt.Sprintf("op %d (%s)", oi, op.Kind)
 		switch op.Kind {
 		case "write":
-			in := make([]S, op.N)
+			in := spare[S](op.N, oi)
 			for k := range in {
 				in[k] = kit.As[S](op.Vals[k%len(op.Vals)])
 			}
-			keep := append([]S(nil), in...)
+			keep := append([]S(nil), in[:cap(in)]...)
 			var ret int
 			if p, v := kit.Try(func() { ret = signal.Write(in, w) }); p {
 				res.Failf("%s: panic %v", what, v)
@@ -170,7 +170,7 @@ func run[S, B signal.SignalTypes](c *Case) (res kit.Result) {
 				res.Failf("%s: returned %d, want %d (buffer len %d, input len %d, %d channels)", what, ret, want, n, op.N, C)
 				return
 			}
-			if d := kit.DiffSlice("caller's input slice", in, keep); d != "" {
+			if d := kit.DiffSlice("caller's input slice (including the elements behind its length)", in[:cap(in)], keep); d != "" {
 				res.Failf("%s: %s", what, d)
 				return
 			}
@@ -179,8 +179,8 @@ func run[S, B signal.SignalTypes](c *Case) (res kit.Result) {
 			}
 			wrote = true
 		case "read":
-			out := make([]S, op.N)
-			want := make([]S, op.N)
+			out := spare[S](op.N, oi)
+			want := append([]S(nil), out[:cap(out)]...)
 			for k := range out {
 				out[k] = S(kit.OutSentinel(k))
 				want[k] = out[k]
@@ -198,7 +198,7 @@ func run[S, B signal.SignalTypes](c *Case) (res kit.Result) {
 				res.Failf("%s: returned %d, want %d (buffer len %d, output len %d, %d channels)", what, ret, wr, n, op.N, C)
 				return
 			}
-			if d := kit.DiffSlice("output slice", out, want); d != "" {
+			if d := kit.DiffSlice("output slice (including the elements behind its length)", out[:cap(out)], want); d != "" {
 				res.Failf("%s: %s", what, d)
 				return
 			}
@@ -218,11 +218,11 @@ func run[S, B signal.SignalTypes](c *Case) (res kit.Result) {
 					uneven = true
 					continue
 				}
-				in[ch] = make([]S, l)
+				in[ch] = spare[S](l, oi+ch)
 				for i := range in[ch] {
 					in[ch][i] = kit.As[S](op.Vals[(ch*7+i)%len(op.Vals)])
 				}
-				keep[ch] = append([]S(nil), in[ch]...)
+				keep[ch] = append([]S(nil), in[ch][:cap(in[ch])]...)
 				if l > longest {
 					longest = l
 				}
@@ -254,7 +254,14 @@ func run[S, B signal.SignalTypes](c *Case) (res kit.Result) {
 					res.Failf("%s: nil-ness of input channel %d changed", what, ch)
 					return
 				}
-				if d := kit.DiffSlice(fmt.Sprintf("caller's input channel %d", ch), in[ch], keep[ch]); d != "" {
+				if len(in[ch]) != op.Lens[ch] && op.Lens[ch] >= 0 {
+					res.Failf("%s: the caller's input channel %d now has length %d, was %d", what, ch, len(in[ch]), op.Lens[ch])
+					return
+				}
+				if in[ch] == nil {
+					continue
+				}
+				if d := kit.DiffSlice(fmt.Sprintf("caller's input channel %d (including the elements behind its length)", ch), in[ch][:cap(in[ch])], keep[ch]); d != "" {
 					res.Failf("%s: %s", what, d)
 					return
 				}
@@ -276,8 +283,8 @@ func run[S, B signal.SignalTypes](c *Case) (res kit.Result) {
 					uneven = true
 					continue
 				}
-				out[ch] = make([]S, l)
-				want[ch] = make([]S, l)
+				out[ch] = spare[S](l, oi+ch)
+				want[ch] = append([]S(nil), out[ch][:cap(out[ch])]...)
 				for i := range out[ch] {
 					out[ch][i] = S(kit.OutSentinel(ch*5 + i))
 					want[ch][i] = out[ch][i]
@@ -310,7 +317,14 @@ func run[S, B signal.SignalTypes](c *Case) (res kit.Result) {
 					res.Failf("%s: nil-ness of output channel %d changed", what, ch)
 					return
 				}
-				if d := kit.DiffSlice(fmt.Sprintf("output channel %d", ch), out[ch], want[ch]); d != "" {
+				if out[ch] == nil {
+					continue
+				}
+				if len(out[ch]) != op.Lens[ch] {
+					res.Failf("%s: the caller's output channel %d now has length %d, was %d", what, ch, len(out[ch]), op.Lens[ch])
+					return
+				}
+				if d := kit.DiffSlice(fmt.Sprintf("output channel %d (including the elements behind its length)", ch), out[ch][:cap(out[ch])], want[ch]); d != "" {
 					res.Failf("%s: %s", what, d)
 					return
 				}
@@ -346,6 +360,18 @@ func run[S, B signal.SignalTypes](c *Case) (res kit.Result) {
 		}
 	}
 	return
+}
+
+// spare returns a slice of length n that is a window of a larger caller-owned
+// array: 0..3 further elements sit behind its length, holding recognisable
+// non-zero values. They belong to the caller as much as the slice itself.
+func spare[S signal.SignalTypes](n, salt int) []S {
+	extra := (n + salt) % 4
+	backing := make([]S, n+extra)
+	for k := n; k < len(backing); k++ {
+		backing[k] = S(kit.OutSentinel(k + 31))
+	}
+	return backing[:n]
 }
 
 // FP is the fingerprint of the canonical case.
